@@ -22,9 +22,9 @@ theorem run_mono : ∀ (f s : Nat) (en : Option Nat) (items : List (Item σ)) (m
       | ev e =>
         by_cases hS : isStart e = true
         · rcases run_start_cases hS h with ⟨mts1, p, hsc, hp, rfl⟩ |
-            ⟨mts1, idx, t, inner, tail, rest', mts3, innerOut, mts4, out, p, hsc, ht, hb, hst, h3, h4, h5, rfl⟩
+            ⟨mts1, idx, t, inner, tail, rest', mts3, innerOut, mts4, out, p, hsc, ht, hst, h3, h4, h5, rfl⟩
           · simp only [run, hS, ↓reduceIte, hsc, ih _ _ _ _ _ hp, emit, Option.map_some]
-          · simp only [run, hS, ↓reduceIte, hsc, ht, hb, Bool.not_true, Bool.false_eq_true, hst,
+          · simp only [run, hS, ↓reduceIte, hsc, ht, hst,
               ih _ _ _ _ _ h3, ih _ _ _ _ _ h4, ih _ _ _ _ _ h5, Option.map_some]
         · by_cases hE : isEnd e = true
           · simp only [run, hS, Bool.false_eq_true, ↓reduceIte, hE] at h ⊢
@@ -109,7 +109,7 @@ theorem run_append : ∀ (f s : Nat) (en : Option Nat) (a b : List (Item σ)) (d
         by_cases hS : isStart e = true
         · simp only [hS, ↓reduceIte] at hl
           rcases run_start_cases hS h with ⟨mts1, p, hsc, hp, rfl⟩ |
-            ⟨mts1, idx, t, inner, tail, rest', mts3, innerOut, mts4, out, p, hsc, ht, hb, hst, h3, h4, h5, rfl⟩
+            ⟨mts1, idx, t, inner, tail, rest', mts3, innerOut, mts4, out, p, hsc, ht, hst, h3, h4, h5, rfl⟩
           · obtain ⟨r1, r2, h1, h2, h3⟩ := ih s en rest b (d + 1) mts1 p hl hp
             refine ⟨(r1.1, e :: r1.2), r2, ?_, run_mono _ _ _ _ _ _ h2, by simp [h3]⟩
             simp only [run, hS, ↓reduceIte, hsc, h1, emit, Option.map_some]
@@ -119,7 +119,7 @@ theorem run_append : ∀ (f s : Nat) (en : Option Nat) (a b : List (Item σ)) (d
             obtain ⟨rfl, rfl, rfl⟩ := hst
             obtain ⟨r1, r2, h1, h2, h3'⟩ := ih s en a'' b d _ p hs3 h5
             refine ⟨(r1.1, out ++ r1.2), r2, ?_, run_mono _ _ _ _ _ _ h2, by simp [h3']⟩
-            simp only [run, hS, ↓reduceIte, hsc, ht, hb, Bool.not_true, Bool.false_eq_true, hs1, h3, h4, h1,
+            simp only [run, hS, ↓reduceIte, hsc, ht, hs1, h3, h4, h1,
               Option.map_some]
         · simp only [hS, Bool.false_eq_true, ↓reduceIte] at hl
           simp only [run, hS, Bool.false_eq_true, ↓reduceIte] at h ⊢
